@@ -292,7 +292,10 @@ def run_case(case):
                     with _OwnRS(sd):
                         bl = numpy.asarray(mb.predict(Pl))
                     if bl.shape != (len(P),) or bl.min() < 0 or bl.max() >= k or not _sizes_ok(numpy.bincount(bl, minlength=k).tolist(), len(P), k):
-                        bad("balanced predict size outside floor/ceil", lcond, "layout %s labels %r" % (nm, bl.tolist()))
+                        # same condition classes as for contiguous batches (the layout is in the message): the recorded defect of the
+                        # 'gain' strategy is one finding whatever the storage of the batch
+                        bad("balanced predict size outside floor/ceil", "strategy=%s,%s,m mod k = %s" % (
+                            strategy, "m<k" if len(P) < k else "m>=k", len(P) % k if len(P) % k < 2 else ">=2"), "layout %s labels %r" % (nm, bl.tolist()))
                 except Exception as e:
                     bad("predict raises %s" % type(e).__name__, lcond, "%s layout %s" % (str(e)[:200], nm))
         return {"viol": viol, "nontrivial": True, "states": cnt, "transitions": cnt, "outcome": tuple(sorted(outcomes))[:50]}
